@@ -3002,7 +3002,11 @@ impl Zeroconf {
         for answer in msg.answers().iter() {
             let mut new_records = Vec::new();
 
-            let name = answer.get_name();
+            // DNS names compare case-insensitively: use our own spelling from here on.
+            let Some(name) = dns_registry.probing_name(answer.get_name()) else {
+                continue;
+            };
+            let name = name.as_str();
             let Some(probe) = dns_registry.probing.get_mut(name) else {
                 continue;
             };
@@ -3239,7 +3243,11 @@ impl Zeroconf {
             } else {
                 // Simultaneous Probe Tiebreaking (RFC 6762 section 8.2)
                 if qtype == RRType::ANY && msg.num_authorities() > 0 {
-                    if let Some(probe) = dns_registry.probing.get_mut(q_name) {
+                    let probing_name = dns_registry.probing_name(q_name);
+                    if let Some(probe) = probing_name
+                        .as_ref()
+                        .and_then(|name| dns_registry.probing.get_mut(name))
+                    {
                         probe.tiebreaking(&msg, q_name);
                         // wake up for the next probe, which may have been postponed.
                         self.timers.push(Reverse(probe.next_send));
